@@ -188,9 +188,13 @@ class State():
     def set_open_state(self, set_name: bool = False, early_stage: bool = False) -> None:
         if early_stage:
             #: A stop requested while the connection was coming up is not
-            #: forgotten: the Open state sees it on its first tick.
-            self.association.state_is_active = \
-                                    not self.association.stop_requested
+            #: forgotten: the Open state sees it on its first tick. The flag
+            #: is raised first and the request looked at afterwards: close()
+            #: records its request before it lowers the flag, so a request
+            #: made at this very moment is seen here or lowers the flag after.
+            self.association.state_is_active = True
+            if self.association.stop_requested:
+                self.association.state_is_active = False
 
         if set_name:
             self.name = self.next_state = OPEN
